@@ -20,7 +20,9 @@ RULE = ("cases: (i) recipe = reference graph over 2-7 tables (acyclic / self loo
         "nickname, nested, friend, random_reference, literal {object,id} and two-target references; update keys, hidden "
         "tables and fields, Account/PersonContact/Contact, record-type columns, count 0, optional load declaration file) "
         "run through generate_data(generate_cci_mapping_file=...) fresh (1, 2, 3 iterations) and as 1+1 / 1+1+1 continuation chains "
-        "(just_once templates own friends / nested objects of other tables whose references exist in the first run only); "
+        "(just_once templates own friends / nested objects of other tables whose references exist in the first run only; "
+        "references that first appear in the 2nd / 3rd iteration: `when: id > 1`, nested objects and friends with count "
+        "`T.id - 1`, random references to rows of earlier iterations); "
         "the YAML is parsed back and compared with the model's mapping, the recorded dependencies with the references "
         "seen by the output stream; (ii) sort_dependencies on dependency graphs over <= 4 tables (exhaustive edge sets, "
         "sampled declared subsets, unknown targets); (iii) _table_is_free.  non-trivial: a recipe that completes and whose "
@@ -227,6 +229,34 @@ def gen_recipe(rng):
             if rng.random() < 0.3:      # one level deeper: a friend of the friend
                 child["friends"].append({"table": "K3", "nick": None, "once": False, "count": None, "ukey": None,
                                          "fields": [["o9", ["ref", table]]], "friends": []})
+    # references that no row of the first iteration holds: null for the first row of a table and a reference
+    # afterwards; nested objects / friends whose count is 0 for the first row (`${{T.id - 1}}`)
+    for t in order:
+        tp = tpls[t]
+        if tp["once"] or t.startswith("_") or rng.random() > 0.3:
+            continue
+        earlier = [u for u in order if pos[u] < pos[t] and (tpls[u]["count"] is None or tpls[u]["count"] > 0)]
+        for k in range(rng.randint(1, 2)):
+            form = rng.choice(["late_ref", "late_ref", "late_prev", "late_nested", "late_friend", "late_literal"])
+            if form == "late_ref" and earlier:
+                tp["fields"].append([f"lt{k}", ["late", ["ref", rng.choice(earlier)]]])
+            elif form == "late_prev":
+                tp["fields"].append([f"lp{k}", ["late", ["prevref", t]]])
+            elif form == "late_literal":
+                tp["fields"].append([f"ll{k}", ["late", ["objref", rng.choice(names + ["Zed"]), 1]]])
+            elif form == "late_nested":
+                child = {"table": rng.choice(["L1", "L2"] + [u for u in names if not u.startswith("_") and u != t]),
+                         "nick": None, "once": False, "count": "${{%s.id - 1}}" % t, "ukey": None,
+                         "fields": [["name", ["lit", "late"]]], "friends": []}
+                tp["fields"].append([f"ln{k}", ["nested", child]])
+            elif form == "late_friend":
+                child = {"table": rng.choice(["L1", "L2"]), "nick": None, "once": False,
+                         "count": "${{%s.id - 1}}" % t, "ukey": None,
+                         "fields": [[f"lf{k}", ["ref", t]]], "friends": []}
+                tp["friends"].append(child)
+            else:
+                continue
+            feats.add(form)
     stmts = []
     for t in order:
         stmts.append(tpls[t])
@@ -361,6 +391,10 @@ def fdef_yaml(d):
         return {"reference": "${{ '%s' if child_index == 0 else '%s' }}" % (d[1], d[2])}
     if k == "nested":
         return [tpl_yaml(d[1])]
+    if k == "prevref":      # a row of an earlier iteration (or an earlier row of this one)
+        return {"random_reference": {"to": d[1], "scope": "prior-and-current-iterations"}}
+    if k == "late":         # null for the first row of the table, a reference from the second row on
+        return {"if": [{"choice": {"when": "${{ id > 1 }}", "pick": fdef_yaml(d[1])}}, {"choice": {"pick": None}}]}
     raise ValueError(k)
 
 
